@@ -204,3 +204,11 @@ def lemma_bitlen_ge(x, k):
 
 
 HINT_LEMMAS += [lemma_mul_cancel_eq, lemma_mul_distrib, lemma_bitlen_ge]
+
+
+def lemma_sq_expand(y):
+    """(y+1)**2 == y**2 + 2y + 1 and (y-1)**2 == y**2 - 2y + 1"""
+    return (y + 1) * (y + 1) == y * y + 2 * y + 1 and (y - 1) * (y - 1) == y * y - 2 * y + 1
+
+
+HINT_LEMMAS += [lemma_sq_expand]
